@@ -600,3 +600,13 @@ _C10V = [H("stunrs", CTX + n, tier=t, timeout=1800, mem_gb=12, covers=None, stub
 PROPS["C10"] = PROPS["C10"] + _C10V
 PROPS["C04"] = PROPS["C04"] + _C10V
 PROPS["C09"] = PROPS["C09"] + [_C10V[0]]
+
+# C11 rests on the invariant "queue ids == table ids"; the receive step must preserve it (a stale deadline is a wrong notification later)
+PROPS["C11"] = PROPS["C11"] + [_G_RECV[1]]
+
+# C13 unit level: order / replacement discipline of the application's attribute list (real stun-agent message.rs over the shim)
+_C13_ADD = [H("agentshim", "message::verif_message::c13_add_order_" + n, tier=t, timeout=900, mem_gb=8, covers=None, stubs=[ENV2M], playback=False,
+              bounds="three additions with the concrete type pattern %s (values symbolic), optionally a FINGERPRINT" % n.upper(),
+              funcs=["StunAttributes::add", "From<StunAttributes> for Vec<StunAttribute>"])
+            for (n, t) in (("aba", "quick"), ("aab", "quick"), ("abb", "thorough"), ("abc", "thorough"), ("aaa", "thorough"))]
+PROPS["C13"] = PROPS["C13"] + _C13_ADD
